@@ -1012,7 +1012,15 @@ impl MerkleTree {
                 instructions.extend(new_instructions);
                 Ok(Either::Left(instructions))
             }
-            Either::Right(index) => Ok(Either::Right(index)),
+            Either::Right(index) => {
+                if instructions.is_empty() {
+                    Ok(Either::Right(index))
+                } else {
+                    // The offset/length validation above still waits for nodes to be
+                    // read from storage: do not skip it.
+                    Ok(Either::Left(instructions))
+                }
+            }
         }
     }
 
